@@ -4,7 +4,7 @@ import ast
 from ..absint import Explorer, UNKNOWN
 from ..astutil import norm, const, NO, compare, tail, names
 from ..index import AnalysisError, walk_own
-from .common import (site, key, calls_to, method_calls, nodes_with, guard_check, stores_to_name, cfg_attr, sample_polarity, kills_of, rname)
+from .common import (site, key, calls_to, method_calls, nodes_with, guard_check, stores_to_name, cfg_attr, sample_polarity, kills_of, rname, sync_accept_sites)
 
 MSG = "gunicorn.http.message"
 WSGI = "gunicorn.http.wsgi"
@@ -239,11 +239,13 @@ def r4(ctx):
     ft = repo.func("gunicorn.workers.gthread.TConn.__init__")
     ctx.check("C08.R4", any(isinstance(s, ast.Assign) and any(tail(t) == "client" for t in s.targets) and isinstance(s.value, ast.Name) and s.value.id == ft.params[3] for s in walk_own(ft.node)),
               key(ft, "stores-client"), site(ft), "TConn does not store the peer address it was given", "self.client = client")
-    fs = ctx.fn(repo.func("gunicorn.workers.sync.SyncWorker.accept"))
-    acc = [s for s in fs.cfg.stmts(ast.Assign) if isinstance(s.ast.value, ast.Call) and isinstance(s.ast.value.func, ast.Attribute) and s.ast.value.func.attr == "accept" and isinstance(s.ast.targets[0], ast.Tuple)]
-    hc = calls_to(repo, fs, "gunicorn.workers.sync.SyncWorker.handle")
-    okk = bool(acc) and bool(hc) and isinstance(hc[0].args[2], ast.Name) and hc[0].args[2].id == acc[0].ast.targets[0].elts[1].id
-    ctx.check("C08.R4", okk, key(fs, "accept-peer"), site(fs), "SyncWorker.accept does not pass accept()'s address to handle()", "handle(listener, client, addr)")
+    sites = sync_accept_sites(repo)
+    ctx.need(sites, "C08.R4: the sync worker never accepts a connection")
+    for fs, sn, st in sites:
+        ctx.fn(fs)
+        hc = calls_to(repo, fs, "gunicorn.workers.sync.SyncWorker.handle")
+        okk = bool(hc) and all(len(c.args) >= 3 and isinstance(c.args[2], ast.Name) and isinstance(st.targets[0].elts[1], ast.Name) and c.args[2].id == st.targets[0].elts[1].id for c in hc)
+        ctx.check("C08.R4", okk, key(fs, "accept-peer"), site(fs, sn), "the sync worker does not pass accept()'s address to handle()", "handle(listener, client, addr)")
 
 
 INFO = "PROXY-INFO"
